@@ -47,6 +47,9 @@ type c05Params struct {
 	// header arrives in two transport deliveries, cut inside its extended length
 	// (or inside the mask key), while the writers write.
 	Inbound int
+	// InboundCut > 0: the transport ends that many bytes before the end of the
+	// inbound message: its read must fail (C04: no silent truncation).
+	InboundCut int
 	// GiveUp: once the first bytes are on the wire, a Ping whose context is
 	// cancelled at 500 ms waits for the frame lock (and gives up).
 	GiveUp bool
@@ -186,6 +189,12 @@ func c05Setup(prm c05Params) func(c *fw.Ctx, name string) explore.Setup {
 						st.p.WaitDrained()
 						// the rest arrives once a frame of the connection is on the wire
 						st.p.WaitOut("some-output", func(out []byte) bool { return len(out) > 0 })
+						if prm.InboundCut > 0 {
+							st.p.Send(fr[3 : len(fr)-prm.InboundCut])
+							st.p.WaitDrained()
+							st.p.SendEOF()
+							return
+						}
 						st.p.Send(fr[3:])
 					})
 				}
@@ -385,7 +394,12 @@ func c05Oracle(c *fw.Ctx, w *vs.World, name string, prm c05Params, st *c05State)
 		lastIdx[match.task] = match.idx
 		out += fmt.Sprintf("m%d.%d ", match.task, match.idx)
 	}
-	if prm.Inbound > 0 && st.inDone {
+	if prm.Inbound > 0 && prm.InboundCut > 0 {
+		if st.inDone && st.inErr == nil {
+			violate(c, w, name, pp+"/truncated-message-reported-complete/"+prm.Name+"/"+role, fmt.Sprintf("the transport ended %d bytes before the end of a %d-byte message (its header had arrived in two pieces while another goroutine was writing), yet Read returned %d bytes and no error", prm.InboundCut, prm.Inbound, len(st.inGot)))
+			return
+		}
+	} else if prm.Inbound > 0 && st.inDone {
 		if st.inErr != nil || len(st.inGot) != prm.Inbound || string(st.inGot) != string(fill(0x1B, prm.Inbound)) {
 			violate(c, w, name, pp+"/inbound-message-differs/"+prm.Name+"/"+role, fmt.Sprintf("a %d-byte message whose header arrived in two pieces while another goroutine was writing was read as %d bytes (%x…), err=%v", prm.Inbound, len(st.inGot), head(st.inGot), st.inErr))
 			return
@@ -732,7 +746,30 @@ func c03Scenarios(tier string) []scenario {
 	return scs
 }
 
+// c04ConcScenarios: the same inbound message, but the transport ends inside its
+// payload: whatever the writers do meanwhile, the read fails.
+func c04ConcScenarios(tier string) []scenario {
+	var scs []scenario
+	p := 1
+	if tier == "thorough" {
+		p = 2
+	}
+	for _, k := range []connCfg{{Client: true}, {Client: false}} {
+		for _, n := range []int{300, 512} {
+			for _, cut := range []int{1, n / 2} {
+				prm := c05Params{Prop: "C04", Name: fmt.Sprintf("WI-%d-cut%d", n, cut), K: k, Inbound: n, InboundCut: cut, Closer: "transport-end", Writers: [][]wop{{{Chunks: []int{300}}}, {{Text: true, Chunks: []int{5}}}}}
+				scs = append(scs, scenario{Name: prm.Name + "/" + k.String(), Cfg: explore.Config{P: p, Horizon: 60e9}, Setup: c05Setup(prm)})
+			}
+		}
+	}
+	return scs
+}
+
 func init() {
+	fw.Register(fw.Part{Prop: "C04", Name: "s.conc",
+		Units:  func(tier string) []fw.Unit { return scenarioUnits(c04ConcScenarios(tier)) },
+		Replay: replayFn(c04ConcScenarios),
+	})
 	fw.Register(fw.Part{Prop: "C03", Name: "s.conc",
 		Units:  func(tier string) []fw.Unit { return scenarioUnits(c03Scenarios(tier)) },
 		Replay: replayFn(c03Scenarios),
